@@ -4,6 +4,13 @@ TLA+ definitions (trace validation), optionally preceded by TLC-generated cases 
 import os
 import vlib
 
+def iter_pre(ctx, binary):
+    g = ctx.cfg("iter", "IterGen.cfg", {"MaxLen3": ctx.q("6", "7"), "MaxDistinct": ctx.q("6", "8")})
+    cases, n = ctx.gen("iter", "IterGen", g, "cases.ndjson", stage="gen", workers=8, timeout=ctx.q(900, 5000), coverage=False)
+    v = ctx.replay(binary, "iter", cases)
+    ctx.distinct_nontrivial += v["extra"].get("nontrivial_cases", 0)
+
+
 SPECS = {
     "mint": {
         "module": "MintTrace",
@@ -59,6 +66,21 @@ SPECS = {
         "assumptions": [
             "limits 1e6 / 1e7 are sampled, not compared element by element (beyond TLC's throughput); pi(1e6) = 78498 and pi(1e7) = 664579 "
             "are taken as known constants",
+        ],
+    },
+    "iter": {
+        "module": "IterTrace",
+        "pre": iter_pre,
+        "rule": ("S->I: TLC enumerates every sequence over a 3-letter alphabet up to length 6 (thorough 7) and every arrangement of up to 6 "
+                 "(thorough 8) distinct elements with the lexicographic successor the specification demands (declarative definition: least "
+                 "greater arrangement; checked equal to the constructive one wherever both are evaluated), whole enumerations for all "
+                 "multisets up to 5 letters / 6 distinct, and every cell of every grid up to 6x6 with its three neighbour lists; all "
+                 "replayed on next_permutation (three element types), iter_permutations and the neighbour iterators. I->S: the complete "
+                 "output of iter_submasks / iter_supermasks for all 256 masks of u8 and i8, all 16-bit masks with <= 4 (thorough 6) free "
+                 "bits, and structured/random masks of the 32/64/128-bit and pointer-sized types with <= 8 (10) free bits, checked by TLC "
+                 "(start, strict monotonicity as unsigned, sub/supermask of x, end value, length 2^free). Non-trivial = every element."),
+        "assumptions": [
+            "16-bit masks are covered up to a popcount bound (3^16 elements are beyond TLC's throughput); wider types sampled (seeded)",
         ],
     },
 }
